@@ -88,6 +88,21 @@ Theorem c14_sound_if_no_clash : forall fuel all its,
 Proof. exact f8c_node_own_noclash. Qed.
 Print Assumptions c14_sound_if_no_clash.
 
+(* The structural hash recurses: a nested group enters its parent's hash with the hash of its own
+   body.  On the definitions NoAllocs{79,80,NoMiscFees{137,138}} / {79,80,NoMiscFees{137,139}} (same
+   direct members, different nested members) the model yields 0x7a05739b and 0x7a05739a -- the values
+   the pinned f8c prints -- so they are kept apart and the second message keeps its own nested
+   group classes. *)
+Theorem c14_hash_covers_nested :
+  (forall n r c sub, item_hash (RGroup n r c sub) = [([n], group_hash sub)])
+  /\ level_nums nhA = level_nums nhB
+  /\ group_hash nhA = 2047177627 /\ group_hash nhB = 2047177626
+  /\ msg_clash (level_defs nhMsgA ++ level_defs nhMsgB) nhMsgB = false
+  /\ f8c_node FUEL (build_gm (level_defs nhMsgA ++ level_defs nhMsgB)) nhMsgB = Some (own_node nhMsgB)
+  /\ own_node nhMsgB <> own_node nhMsgA.
+Proof. exact (conj item_hash_group_lemma hash_covers_nested_lemma). Qed.
+Print Assumptions c14_hash_covers_nested.
+
 (* Non-vacuity: an expanded schema with six stored definitions, among them two DIFFERENT
    definitions of one count field (and one reused unchanged, with a nested group), meets the
    hypotheses of c14_sound_if_injective. *)
